@@ -414,6 +414,13 @@ def r6_fresh_tracking(ctx):
             raise AnalysisError(f"{cname}.assembler_callback vanished")
         for h in sorted(hist):
             top = [st for st in ac.body if isinstance(st, ast.Assign) and any(isinstance(t, ast.Attribute) and t.attr == h and dotted(t.value) == "self" for t in st.targets)]
+            if not top:
+                # initialisation delegated to a method that is called unconditionally (self.reset())
+                for st in ac.body:
+                    if isinstance(st, ast.Expr) and isinstance(st.value, ast.Call) and norm_src(st.value.func).startswith("self."):
+                        c3, m3 = model.find_method(ci, norm_src(st.value.func)[5:])
+                        if m3 is not None:
+                            top += [s3 for s3 in m3.body if isinstance(s3, ast.Assign) and any(isinstance(t, ast.Attribute) and t.attr == h and dotted(t.value) == "self" for t in s3.targets)]
             anywhere = [st for st in ast.walk(ac) if isinstance(st, ast.Assign) and any(isinstance(t, ast.Attribute) and t.attr == h and dotted(t.value) == "self" for t in st.targets)]
             if top:
                 rep.ok("C09.R6", C, f"self.{h} = {norm_src(top[0].value)} on every path of the callback")
